@@ -174,7 +174,7 @@ pub fn global_init(run_once: RunOnce) {
     // Prime shuttle once so that its own panic hook is installed (it does so exactly once, wrapping
     // the hook present at that time); then replace it with ours, which records instead of printing.
     {
-        let (s, _st) = SimScheduler::new(SchedSpec::Sticky);
+        let (s, _st) = SimScheduler::new(SchedSpec::Sticky, crate::sched::step_budget(0));
         let mut cfg = shuttle::Config::new();
         cfg.failure_persistence = shuttle::FailurePersistence::None;
         cfg.silence_warnings = true;
@@ -533,6 +533,7 @@ pub fn run_invocation(scratch: &mut Scratch, tree: &Tree, inv: &Inv, out: &Path)
     };
     let root = scratch.root.clone();
     let tags = file_tags(tree);
+    let budget = crate::sched::step_budget(tree.len());
     let inv2 = inv.clone();
     let run_once = *RUN_ONCE.get().expect("global_init not called");
 
@@ -560,11 +561,11 @@ pub fn run_invocation(scratch: &mut Scratch, tree: &Tree, inv: &Inv, out: &Path)
                 file_tags: tags,
                 ..Default::default()
             });
-            let (sched, state) = SimScheduler::new(inv2.sched.clone());
+            let (sched, state) = SimScheduler::new(inv2.sched.clone(), budget);
             let mut cfg = shuttle::Config::new();
             cfg.stack_size = 2 << 20;
             cfg.failure_persistence = shuttle::FailurePersistence::None;
-            cfg.max_steps = shuttle::MaxSteps::FailAfter(crate::sched::N_ADV + crate::sched::N_FAIR);
+            cfg.max_steps = shuttle::MaxSteps::FailAfter(budget);
             cfg.silence_warnings = true;
             let runner = shuttle::Runner::new(sched, cfg);
             let res = std::panic::catch_unwind(std::panic::AssertUnwindSafe(|| {
